@@ -68,6 +68,25 @@ def _window_names(model, fi):
         if isinstance(n, ast.Assign) and isinstance(n.targets[0], ast.Name) \
                 and norm(n.value) == 'self.items':
             out['sequence'].add(n.targets[0].id)
+    # plain copies (sz = size; also the elements of a tuple-to-tuple
+    # assignment) of these names denote the same values
+    for _ in range(3):
+        for n in own_nodes(fi.node):
+            if not isinstance(n, ast.Assign) or len(n.targets) != 1:
+                continue
+            t, v = n.targets[0], n.value
+            pairs = []
+            if isinstance(t, ast.Name) and isinstance(v, ast.Name):
+                pairs.append((t.id, v.id))
+            elif isinstance(t, ast.Tuple) and isinstance(v, ast.Tuple) and \
+                    len(t.elts) == len(v.elts):
+                pairs += [(a.id, b.id) for a, b in zip(t.elts, v.elts)
+                          if isinstance(a, ast.Name) and
+                          isinstance(b, ast.Name)]
+            for dst, src in pairs:
+                for k in out:
+                    if src in out[k]:
+                        out[k].add(dst)
     return out
 
 
@@ -253,6 +272,47 @@ def rule_params(model):
             guards = [norm(a.test) for a in ancestors(n)
                       if isinstance(a, ast.If)]
             ok = want in guards
+            if not ok:
+                # decided semantically: on an element that is NOT the
+                # first / last one some enclosing guard must be false
+                lv, bound = want.split(' == ')
+
+                def tv(e):
+                    if isinstance(e, ast.UnaryOp) and \
+                            isinstance(e.op, ast.Not):
+                        v = tv(e.operand)
+                        return None if v is None else not v
+                    if isinstance(e, ast.BoolOp):
+                        vs = [tv(x) for x in e.values]
+                        if isinstance(e.op, ast.Or):
+                            if any(v is True for v in vs):
+                                return True
+                            return False if all(v is False for v in vs) \
+                                else None
+                        if any(v is False for v in vs):
+                            return False
+                        return True if all(v is True for v in vs) else None
+                    t = norm(e)
+                    if t in (f'{lv} == {bound}', f'{bound} == {lv}'):
+                        return False
+                    if t in (f'{lv} != {bound}', f'{bound} != {lv}'):
+                        return True
+                    if t == f'{lv} is None':
+                        return False        # the loop variable of range()
+                    if t == f'{lv} is not None':
+                        return True
+                    return None
+                child = n
+                for a in ancestors(n):
+                    if isinstance(a, ast.For):
+                        break
+                    if isinstance(a, ast.If):
+                        inbody = any(child is x or any(
+                            child is y for y in ast.walk(x)) for x in a.body)
+                        v = tv(a.test)
+                        if v is not None and v != inbody:
+                            ok = True
+                    child = a
             r.instance(fi.where, n, 'under ' + want if ok else 'UNGUARDED')
             if not ok:
                 r.finding(fi.where, n, f'{which} is set true outside `if '
@@ -559,8 +619,16 @@ def rule_window_invariants(model):
     return r
 
 
-RULES = [rule_windows, rule_keys, rule_params, rule_opt_forms,
-         rule_window_invariants]
+def _inl(rule):
+    """Run a rule on the view in which helpers that are new w.r.t. the
+    reference tree are inlined at their call sites (normalise.N2)."""
+    def run(model):
+        return rule(model.inlined_view())
+    run.__name__ = rule.__name__
+    return run
+
+
+RULES = [_inl(rule_windows), _inl(rule_keys), _inl(rule_params), _inl(rule_opt_forms), _inl(rule_window_invariants)]
 EXPLANATION = (
     'Linear normal forms of the arguments of every opt() call and of every '
     'published batch key, compared with the documented formula (sites must '
